@@ -99,6 +99,95 @@ fn boundary_patterns(c: char) -> Vec<String> {
 /// prefix / wildcard / regex on a default-, whitespace-, unicode-analyzed text field and a keyword
 /// field; fuzzy expansion with prefix_length 0, 1, 2; query_string forms; completion suggest with
 /// and without fuzzy.
+/// Feature-interaction family. Per-location substitution varies one place at a time; panics that
+/// need two or three request features to line up are reached by enumerating, on top of a plain
+/// base request, every combination of at most `max_arity` features set to a non-default value.
+/// Every value is a valid, ordinary setting. Returns (requests, combinations per arity).
+fn interaction_family(max_arity: usize) -> (Vec<String>, BTreeMap<usize, u64>) {
+  // a value is a list of (target, key, json): target "" = top level of the request, "rescore" = inside it
+  type Val = Vec<(&'static str, &'static str, Value)>;
+  let top = |k: &'static str, v: Value| -> Val { vec![("", k, v)] };
+  let rescore = |q: Value| -> Val { vec![("", "rescore", json!({"window_size": 10, "score_mode": "total", "query": q}))] };
+  let fs = |min: f64| json!({"type": "function_score", "query": {"type": "match_all"}, "functions": [{"type": "weight", "weight": 2.0, "filter": {"KeywordEq": {"field": "kw", "value": "x"}}}], "score_mode": "sum", "boost_mode": "multiply", "min_score": min});
+  let features: Vec<(&'static str, Vec<Val>)> = vec![
+    // rescore query kinds: plain; rejecting every hit; rejecting the hits without kw=x; a script that
+    // yields no value where n = 1 (division by zero) or n is missing
+    ("rescore.query", vec![
+      rescore(json!({"type": "term", "field": "body", "value": "b"})),
+      rescore(fs(1e6)),
+      rescore(fs(2.0)),
+      rescore(json!({"type": "script_score", "query": {"type": "match_all"}, "script": "_score / (n - 1)"})),
+    ]),
+    // window sizes around the number of hits (5 documents; default 10 covers them all)
+    ("rescore.window_size", [0, 1, 2, 5].iter().map(|w| vec![("rescore", "window_size", json!(w))]).collect()),
+    ("rescore.score_mode", ["multiply", "max"].iter().map(|m| vec![("rescore", "score_mode", json!(m))]).collect()),
+    ("collapse", vec![
+      top("collapse", json!({"field": "g"})),
+      top("collapse", json!({"field": "kw", "inner_hits": {"size": 1, "from": 0}})),
+      top("collapse", json!({"field": "g", "inner_hits": {"size": 1, "from": 5, "sort": [{"field": "n", "order": "asc"}]}})),
+    ]),
+    ("sort", vec![
+      top("sort", json!([{"field": "n", "order": "asc"}])),
+      top("sort", json!([{"field": "_score", "order": "desc"}, {"field": "n", "order": "asc"}])),
+      top("sort", json!([{"field": "kw", "order": "desc"}])),
+    ]),
+    ("limit", [1, 2, 5].iter().map(|l| top("limit", json!(l))).collect()),
+    ("cursor", vec![top("cursor", json!(SECOND_PAGE))]),
+    ("aggs", vec![top("aggs", json!({"t": {"type": "terms", "field": "kw", "aggs": {"th": {"type": "top_hits", "size": 1}}}}))]),
+    ("highlight", vec![vec![("", "highlight_field", json!("body")), ("", "highlight", json!({"fields": {"body": {"fragment_size": 8, "number_of_fragments": 2}}}))]]),
+    ("explain", vec![top("explain", json!(true))]),
+    ("profile", vec![top("profile", json!(true))]),
+    ("execution", vec![top("execution", json!("wand")), top("execution", json!("bmw"))]),
+    ("query", vec![
+      top("query", json!({"type": "match_all"})),
+      top("query", json!({"type": "function_score", "query": {"type": "query_string", "query": "a b"}, "functions": [{"type": "weight", "weight": 2.0, "filter": {"KeywordEq": {"field": "kw", "value": "x"}}}], "boost_mode": "multiply", "min_score": 0.3})),
+      top("query", json!({"type": "function_score", "query": {"type": "match_all"}, "functions": [], "min_score": 1e6})),
+    ]),
+    ("return_stored", vec![top("return_stored", json!(true))]),
+    ("candidate_size", vec![top("candidate_size", json!(1)), top("candidate_size", json!(100))]),
+    ("return_hits", vec![top("return_hits", json!(false))]),
+    ("filter", vec![top("filter", json!({"KeywordEq": {"field": "kw", "value": "x"}}))]),
+  ];
+  let base = json!({"query": "a", "limit": 10, "return_stored": false, "execution": "bm25"});
+  let mut out: Vec<String> = Vec::new();
+  let mut per_arity: BTreeMap<usize, u64> = BTreeMap::new();
+  // depth-first over features: choose for each either the default or one non-default value
+  fn rec(fi: usize, chosen: &mut Vec<(usize, usize)>, features: &[(&'static str, Vec<Vec<(&'static str, &'static str, Value)>>)], max_arity: usize, base: &Value, out: &mut Vec<String>, per_arity: &mut BTreeMap<usize, u64>) {
+    if fi == features.len() {
+      // window_size / score_mode only exist inside a rescore section
+      let has_rescore = chosen.iter().any(|c| c.0 == 0);
+      if !has_rescore && chosen.iter().any(|c| c.0 == 1 || c.0 == 2) {
+        return;
+      }
+      let mut r = base.clone();
+      for (f, vi) in chosen.iter() {
+        for (target, key, val) in &features[*f].1[*vi] {
+          if target.is_empty() {
+            r[*key] = val.clone();
+          } else {
+            r[*target][*key] = val.clone();
+          }
+        }
+      }
+      *per_arity.entry(chosen.len()).or_insert(0) += 1;
+      out.push(r.to_string());
+      return;
+    }
+    rec(fi + 1, chosen, features, max_arity, base, out, per_arity);
+    if chosen.len() < max_arity {
+      for vi in 0..features[fi].1.len() {
+        chosen.push((fi, vi));
+        rec(fi + 1, chosen, features, max_arity, base, out, per_arity);
+        chosen.pop();
+      }
+    }
+  }
+  rec(0, &mut Vec::new(), &features, max_arity, &base, &mut out, &mut per_arity);
+  // simplest first
+  out.sort_by_key(|t| t.len());
+  (out, per_arity)
+}
+
 /// Structural aggregation family: every aggregation type of the request schema with a minimal
 /// valid parameterisation and a set of invalid ones, placed at every structural position.
 /// Returns (name of the variant, aggregation JSON).
@@ -844,6 +933,8 @@ fn edit_neighbours(text: &str, alphabet: &[char], out: &mut Vec<String>) {
 // Worker subprocess
 
 const WORKER_KEY: &str = "c16_worker";
+/// Cursor marker understood by the worker: fetch page one, then present its next_cursor.
+const SECOND_PAGE: &str = "@second-page";
 
 thread_local! {
   static PANIC_LOC: std::cell::RefCell<Option<String>> = const { std::cell::RefCell::new(None) };
@@ -887,23 +978,43 @@ fn worker(spec: &Value) -> i32 {
           let _ = o.flush();
         }
         let t_req = Instant::now();
+        let run_one = |req: &SearchRequest| -> (Value, Option<String>) {
+          PANIC_LOC.with(|p| *p.borrow_mut() = None);
+          match std::panic::catch_unwind(std::panic::AssertUnwindSafe(|| reader.search(req))) {
+            Ok(Ok(res)) => (json!({"o": "ok", "hits": res.hits.len()}), res.next_cursor),
+            Ok(Err(e)) => (json!({"o": "err", "m": truncate(&format!("{e:#}"), 200)}), None),
+            Err(p) => {
+              let msg = if let Some(s) = p.downcast_ref::<&str>() {
+                s.to_string()
+              } else if let Some(s) = p.downcast_ref::<String>() {
+                s.clone()
+              } else {
+                "<non-string panic>".to_string()
+              };
+              (json!({"o": "panic", "m": truncate(&msg, 400), "loc": PANIC_LOC.with(|p| p.borrow().clone())}), None)
+            }
+          }
+        };
         let mut res = match serde_json::from_str::<SearchRequest>(text) {
           Err(e) => json!({"o": "undeserializable", "m": truncate(&e.to_string(), 200)}),
-          Ok(req) => {
-            PANIC_LOC.with(|p| *p.borrow_mut() = None);
-            match std::panic::catch_unwind(std::panic::AssertUnwindSafe(|| reader.search(&req))) {
-              Ok(Ok(res)) => json!({"o": "ok", "hits": res.hits.len()}),
-              Ok(Err(e)) => json!({"o": "err", "m": truncate(&format!("{e:#}"), 200)}),
-              Err(p) => {
-                let msg = if let Some(s) = p.downcast_ref::<&str>() {
-                  s.to_string()
-                } else if let Some(s) = p.downcast_ref::<String>() {
-                  s.clone()
-                } else {
-                  "<non-string panic>".to_string()
-                };
-                json!({"o": "panic", "m": truncate(&msg, 400), "loc": PANIC_LOC.with(|p| p.borrow().clone())})
+          Ok(mut req) => {
+            if req.cursor.as_deref() == Some(SECOND_PAGE) {
+              // "second page": run the request without a cursor, then again with the cursor it returned
+              req.cursor = None;
+              let (first, next) = run_one(&req);
+              match next {
+                Some(c) if first["o"] == json!("ok") => {
+                  req.cursor = Some(c);
+                  let (mut second, _) = run_one(&req);
+                  if second["o"] == json!("panic") {
+                    second["m"] = json!(format!("[on the second page, cursor taken from the first] {}", second["m"].as_str().unwrap_or("")));
+                  }
+                  second
+                }
+                _ => first,
               }
+            } else {
+              run_one(&req).0
             }
           }
         };
@@ -1427,6 +1538,10 @@ pub fn run(ctx: &Ctx) -> i32 {
     core.push(e.to_string());
   }
   let n_extras = core.len() - n_bases;
+  // feature interactions: quick all combinations of <= 3 non-default features on the two-segment
+  // index and <= 2 on the empty index; thorough <= 4 on the two-segment index, <= 3 elsewhere
+  let (inter_hi, inter_hi_arity) = interaction_family(if quick { 3 } else { 4 });
+  let (inter_lo, inter_lo_arity) = interaction_family(if quick { 2 } else { 3 });
   let aggfam: Vec<String> = agg_family(quick).iter().map(|r| r.to_string()).collect();
   let n_aggfam = aggfam.len();
   let boundary: Vec<String> = boundary_requests().iter().map(|r| r.to_string()).collect();
@@ -1458,6 +1573,9 @@ pub fn run(ctx: &Ctx) -> i32 {
     out
   };
   let core = keep(core, &mut seen);
+  // (the two interaction lists overlap by construction: deduplicate each on its own)
+  let inter_hi = keep(inter_hi, &mut seen.clone());
+  let inter_lo = keep(inter_lo, &mut seen.clone());
   let aggfam = keep(aggfam, &mut seen);
   let boundary = keep(boundary, &mut seen);
   let structured = keep(structured, &mut seen);
@@ -1490,7 +1608,7 @@ pub fn run(ctx: &Ctx) -> i32 {
   // two-segment index only), text edits (priority 2; quick: two-segment index only).
   let mut per_world_texts: Vec<Vec<String>> = Vec::new();
   let mut cursor_counts = Vec::new();
-  let mut jobs: Vec<(u8, Job)> = Vec::new();
+  let mut jobs: Vec<(u8, u32, Job)> = Vec::new();
   let chunk = 300usize;
   for (wi, w) in worlds.iter().enumerate() {
     let mut texts: Vec<String> = Vec::new();
@@ -1504,8 +1622,10 @@ pub fn run(ctx: &Ctx) -> i32 {
       for k in 0..n {
         buckets[k % njobs].push(from + k);
       }
-      for b in buckets.into_iter().filter(|b| !b.is_empty()) {
-        jobs.push((prio, Job { world: wi, reqs: b }));
+      // every family advances proportionally: a job is ordered by the fraction of its family it
+      // starts at, so a run that is cut short by the wall budget has seen a slice of every family
+      for (k, b) in buckets.into_iter().enumerate().filter(|(_, b)| !b.is_empty()) {
+        jobs.push((prio, (k * 10_000 / njobs) as u32, Job { world: wi, reqs: b }));
       }
     };
     let mut local_seen = seen.clone();
@@ -1513,26 +1633,31 @@ pub fn run(ctx: &Ctx) -> i32 {
     cursor_counts.push(cur.len());
     // structural aggregation family first, so that a wall cap cannot skip it (quick: the
     // two-segment index and the empty index; thorough: all)
+    if wi == 1 {
+      add_part(0, 100, inter_hi.clone(), &mut texts);
+    } else if !quick || wi == 2 {
+      add_part(0, 100, inter_lo.clone(), &mut texts);
+    }
     if !quick || wi >= 1 {
-      add_part(0, 150, aggfam.clone(), &mut texts);
+      add_part(0, 100, aggfam.clone(), &mut texts);
     }
     // the hand-written extras contain most of the hanging requests: small jobs spread them
-    add_part(1, 12, core.clone(), &mut texts);
-    add_part(1, 120, cur, &mut texts);
+    add_part(0, 12, core.clone(), &mut texts);
+    add_part(0, 120, cur, &mut texts);
     // UTF-8 boundary requests: quick on the two indexes that have segments, thorough on all
     if !quick || wi <= 1 {
-      add_part(1, 150, boundary.clone(), &mut texts);
+      add_part(0, 100, boundary.clone(), &mut texts);
     }
     if !quick || wi == 1 {
-      add_part(2, chunk, structured.clone(), &mut texts);
+      add_part(1, chunk, structured.clone(), &mut texts);
     }
     if !quick || wi == 1 {
-      add_part(3, chunk, edits.clone(), &mut texts);
+      add_part(2, chunk, edits.clone(), &mut texts);
     }
     per_world_texts.push(texts);
   }
-  jobs.sort_by_key(|j| j.0);
-  let jobs: Vec<Job> = jobs.into_iter().map(|j| j.1).collect();
+  jobs.sort_by_key(|j| (j.0, j.1));
+  let jobs: Vec<Job> = jobs.into_iter().map(|j| j.2).collect();
   let world_json: Vec<Value> = worlds.iter().map(|w| w.to_json()).collect();
   let results: Vec<Mutex<Vec<Outcome>>> = per_world_texts.iter().map(|t| Mutex::new(vec![Outcome::NotRun; t.len()])).collect();
   let next = AtomicUsize::new(0);
@@ -1773,11 +1898,16 @@ pub fn run(ctx: &Ctx) -> i32 {
   let nontrivial = counts.get("ok").copied().unwrap_or(0) + counts.get("err").copied().unwrap_or(0) + counts.get("panic").copied().unwrap_or(0) + counts.get("hang").copied().unwrap_or(0) + counts.get("died").copied().unwrap_or(0);
   let cov = vcore::cov! {
     "distinct_nontrivial" => nontrivial,
-    "rule" => "requests = 10 base requests covering every top-level request feature; for every value location of each base: null, every nasty string (thorough: every string at every string location; quick: the location's own class + the universal class; classes: cursor-like, regex/wildcard patterns, scripts, field names and bucket paths, query strings, percentages/intervals/dates, enum and type names) for strings, every nasty number for numbers, bool flip, for arrays empty / first element duplicated / +40 copies / each element removed, for objects empty / each key dropped / each key renamed to 7 names; structural aggregation family (every aggregation type of the request schema with a minimal valid and several invalid parameterisations, pipelines x 16 bucket paths incl. dangling / self-referential / pipeline-to-pipeline, x positions: top level alone, top level next to a bucket and a metric aggregation, only child of each bucket kind, next to a metric and a pipeline inside each bucket kind, two levels deep, under a metric, and as a parent of a metric and pipelines); UTF-8 byte-boundary alphabet (22 characters: per encoded length 1..4 a character whose last byte is minimal / middle / maximal, letter representatives, first and last code point of each length class) as plain words at every pattern / query-string location, as wildcard / regex patterns with such a literal prefix, as indexed tokens of document E in four differently analyzed fields, and in hand-written requests for every term-expansion site (prefix / wildcard / regex on default-, whitespace-, unicode-analyzed text and keyword fields; fuzzy with prefix_length 0,1,2; query_string forms; completion suggest with and without fuzzy); hand-written extras (duplicate terms in several scoring leaves, histogram bounds, pipeline windows, highlight, limits, fuzzy, boosts, sorts on every field kind); per index a cursor alphabet built from byte-level variants of a real score cursor and JSON-level variants of two real sort cursors, each presented on the score path and on two sort paths; all single-edit neighbours (delete / duplicate / substitute by each alphabet char) of the serialized base requests. Only requests that deserialize are run, deduplicated by the parsed request. A request is non-trivial when it deserialized and was run to an outcome.",
+    "rule" => "requests = 10 base requests covering every top-level request feature; for every value location of each base: null, every nasty string (thorough: every string at every string location; quick: the location's own class + the universal class; classes: cursor-like, regex/wildcard patterns, scripts, field names and bucket paths, query strings, percentages/intervals/dates, enum and type names) for strings, every nasty number for numbers, bool flip, for arrays empty / first element duplicated / +40 copies / each element removed, for objects empty / each key dropped / each key renamed to 7 names; feature-interaction family (17 request features - rescore query kind incl. queries that reject hits, rescore window_size around the hit count, rescore score_mode, collapse with inner_hits, sort, limit, second-page cursor, aggs with top_hits, highlight, explain, profile, execution, main query incl. min_score, return_stored, candidate_size, return_hits, filter - each with 1-4 ordinary non-default values; every combination with at most 3 (quick) / 4 (thorough) features non-default on the two-segment index, at most 2 / 3 on the others; the second-page cursor is obtained by the worker from page one of the same request); structural aggregation family (every aggregation type of the request schema with a minimal valid and several invalid parameterisations, pipelines x 16 bucket paths incl. dangling / self-referential / pipeline-to-pipeline, x positions: top level alone, top level next to a bucket and a metric aggregation, only child of each bucket kind, next to a metric and a pipeline inside each bucket kind, two levels deep, under a metric, and as a parent of a metric and pipelines); UTF-8 byte-boundary alphabet (22 characters: per encoded length 1..4 a character whose last byte is minimal / middle / maximal, letter representatives, first and last code point of each length class) as plain words at every pattern / query-string location, as wildcard / regex patterns with such a literal prefix, as indexed tokens of document E in four differently analyzed fields, and in hand-written requests for every term-expansion site (prefix / wildcard / regex on default-, whitespace-, unicode-analyzed text and keyword fields; fuzzy with prefix_length 0,1,2; query_string forms; completion suggest with and without fuzzy); hand-written extras (duplicate terms in several scoring leaves, histogram bounds, pipeline windows, highlight, limits, fuzzy, boosts, sorts on every field kind); per index a cursor alphabet built from byte-level variants of a real score cursor and JSON-level variants of two real sort cursors, each presented on the score path and on two sort paths; all single-edit neighbours (delete / duplicate / substitute by each alphabet char) of the serialized base requests. Only requests that deserialize are run, deduplicated by the parsed request. A request is non-trivial when it deserialized and was run to an outcome.",
     "indexes" => worlds.iter().map(|w| w.describe()).collect::<Vec<_>>(),
     "base_requests" => n_bases,
     "structured_variants_generated" => n_structured,
     "extras" => n_extras,
+    "interaction_family_combinations_per_arity_two_segment_index" => inter_hi_arity.iter().map(|(k, v)| (k.to_string(), *v)).collect::<BTreeMap<String, u64>>(),
+    "interaction_family_combinations_per_arity_other_indexes" => inter_lo_arity.iter().map(|(k, v)| (k.to_string(), *v)).collect::<BTreeMap<String, u64>>(),
+    "interaction_family_requests_two_segment_index" => inter_hi.len(),
+    "interaction_family_requests_other_indexes" => inter_lo.len(),
+    "interaction_family_other_indexes" => if quick { "empty index" } else { "one-segment index and empty index" },
     "aggregation_family_variants" => agg_variants().len(),
     "aggregation_family_parent_kinds" => if quick { 3 } else { 9 },
     "aggregation_family_requests_generated" => n_aggfam,
